@@ -117,3 +117,15 @@ chk("C19", "static analysis: MIR decision tables of macro expansions in a witnes
     "Trusted: rustc's macro expansion and MIR for the witness crate; marker functions are opaque (`#[inline(never)] loop{}`), "
     "so results hold for every closure. The accept family is sampled per arity in the quick tier (uniform + mixed kinds).",
     cat="other")
+chk("C17", "static analysis: compile-reject / compile-accept witness programs with matched diagnostics, compile_error! inventory",
+    "A generated family of 75 reject programs, each with an accept twin differing only in the offending element, is compiled "
+    "by the real stable rustc against the current konst: destructure! x {Drop type (braced/tuple struct, generic, path/type "
+    "form, +-annotation), reference (4 shapes, +-annotation), wrong field/element count (6 shapes), `..` rest (3 shapes)}, "
+    "iterator DSL x {double reversal for every reverser and all three macros, unknown methods, consumer in adapter-only "
+    "macro, arguments to argument-less methods, argument-shape guards}, parser_method! x {non-literal pattern for all six "
+    "methods, missing default, branch after default, unknown method}. A reject must fail with the guard's own diagnostic "
+    "(code / message / guard macro in the expansion back-trace), the twin must compile. Every compile_error! arm of the six "
+    "anchored macro files must be hit by the family or be listed as a shadowed fall-back with the reason.",
+    "Trusted: rustc's accept/reject verdict (that is the property). The family is finite; shapes outside it (deeper nesting, "
+    "macro-generated invocations) are not enumerated.",
+    cat="exploration")
